@@ -57,7 +57,8 @@ def st_history(draw, maxn):
                 elif k == 9:
                     tags.append(["e"])
                 elif k == 10:
-                    tags.append(["e", "77" * 32])  # unknown id
+                    # an id the relay has not seen: never used, or used LATER in this history by this or another author
+                    tags.append(["e", draw(st.sampled_from(["77" * 32] + [IDS[(i + j) % len(IDS)] for j in (1, 2, 3)]))])
                 elif k <= 12:
                     # NIP-09 coordinate of a replaceable event: kind:pubkey:d (own or foreign)
                     t = draw(st.sampled_from(evs))
@@ -80,7 +81,27 @@ def st_history(draw, maxn):
             hist.append(["view", draw(st.sampled_from(used))])
         elif r == 1:
             hist.append(dict(draw(st.sampled_from(evs))))  # resubmission
-    return hist
+    # some runs of consecutive submissions arrive together (processed concurrently): only runs whose members do not refer
+    # to each other, so that the order inside the run cannot matter
+    out = []
+    i = 0
+    while i < len(hist):
+        m = draw(st.sampled_from([1, 1, 1, 2, 3, 4]))
+        run = hist[i:i + m]
+        ok = m > 1 and len(run) == m and all(isinstance(e, dict) for e in run)
+        if ok:
+            ids = [e["id"] for e in run]
+            refs = {x for e in run for x in referenced(e)[1]} if any(e["kind"] == 5 for e in run) else set()
+            addrs = [R.address(e) for e in run if R.address(e) is not None]
+            coords = any(t and t[0] == "a" for e in run for t in e["tags"])
+            ok = len(set(ids)) == len(ids) and not (refs & set(ids)) and len(set(addrs)) == len(addrs) and not coords
+        if ok:
+            out.append(["together", run])
+            i += m
+        else:
+            out.append(hist[i])
+            i += 1
+    return out
 
 
 def referenced(ev):
@@ -91,6 +112,21 @@ def referenced(ev):
             if len(t[1]) == 64 and all(c in "0123456789abcdef" for c in t[1]):
                 strict.add(t[1])
     return strict, loose
+
+
+async def _add_raw(rig, ev):
+    """storage.add_event without settling in between (several of these run concurrently); result as Rig.add"""
+    import json
+
+    from nostr_relay.errors import StorageError, AuthenticationError
+
+    try:
+        _, changed = await rig.storage.add_event(json.loads(json.dumps(ev)))
+        return (bool(changed), "" if changed else "duplicate")
+    except (StorageError, AuthenticationError) as e:
+        return (False, str(e))
+    except Exception as e:
+        return (False, "EXC %s: %s" % (type(e).__name__, e))
 
 
 class Deletion(Sub):
@@ -106,65 +142,101 @@ class Deletion(Sub):
         return H.run(self._run, case[0], case[1])
 
     async def _run(self, backend, history):
+        import asyncio
+
         viol = []
         nt = False
         labels = ["backend:" + backend]
-        async with H.Rig(backend, validators=[]) as rig:
+        # concurrent submissions need real concurrency on SQL: a file database with several connections
+        together = any(isinstance(x, list) and x[0] == "together" for x in history)
+        async with H.Rig(backend, validators=[], file_db=True if (backend == "sql" and together) else None) as rig:
             seen_ids = set()
-            for step, ev in enumerate(history):
-                if isinstance(ev, list):
-                    got = await rig.storage.get_event(ev[1])
+            deletions = []   # accepted kind-5 events so far
+            for step, item in enumerate(history):
+                if isinstance(item, list) and item[0] == "view":
+                    got = await rig.storage.get_event(item[1])
                     cur = await rig.dump()
                     labels.append("view")
-                    if (got is None) != (ev[1] not in cur):
+                    if (got is None) != (item[1] not in cur):
                         viol.append(V("%s-get-event-disagrees-with-store" % backend,
-                                      "/e/<id> serves exactly the stored events", step=step, id=ev[1],
+                                      "/e/<id> serves exactly the stored events", step=step, id=item[1],
                                       served=got is not None))
                         break
                     continue
+                group = item[1] if isinstance(item, list) else [item]
                 before = await rig.dump()
-                ok, reason = await rig.add(ev)
-                after = await rig.dump()
-                if ev["id"] in seen_ids:
-                    labels.append("resubmission")
-                seen_ids.add(ev["id"])
-                removed = [e for i, e in before.items() if i not in after]
-                if ev["kind"] == 5:
-                    strict, loose = referenced(ev)
-                    malformed = any(t and t[0] == "e" and not (len(t) > 1 and isinstance(t[1], str) and len(t[1]) == 64
-                                                                 and all(c in "0123456789abcdefABCDEF" for c in t[1]))
-                                    for t in ev["tags"])
-                    labels.append("deletion-accepted" if ok else "deletion-refused")
-                    if malformed:
-                        labels.append("deletion-with-malformed-e")
+                if len(group) == 1:
+                    results = [await rig.add(group[0])]
                 else:
-                    strict, loose = set(), set()
-                    malformed = False
+                    labels.append("together:%d" % len(group))
+                    results = await asyncio.gather(*[_add_raw(rig, e) for e in group])
+                    rig.pump()
+                    await rig.settle()
+                after = await rig.dump()
+                removed = [e for i, e in before.items() if i not in after]
+                info = []
+                for ev, (ok, reason) in zip(group, results):
+                    if ev["id"] in seen_ids:
+                        labels.append("resubmission")
+                    dup = ev["id"] in before
+                    seen_ids.add(ev["id"])
+                    if ev["kind"] == 5:
+                        strict, loose = referenced(ev)
+                        malformed = any(t and t[0] == "e" and not (len(t) > 1 and isinstance(t[1], str) and len(t[1]) == 64
+                                                                     and all(c in "0123456789abcdefABCDEF" for c in t[1]))
+                                        for t in ev["tags"])
+                        labels.append("deletion-accepted" if ok else "deletion-refused")
+                        if malformed:
+                            labels.append("deletion-with-malformed-e")
+                    else:
+                        strict, loose = set(), set()
+                        malformed = False
+                    info.append((ev, ok, strict, loose, malformed, dup))
                 for r in removed:
-                    if R.address(r) is not None and R.address(r) == R.address(ev) and r["created_at"] <= ev["created_at"]:
-                        continue  # replaced by a newer version of its own address (C09's subject)
-                    by_coord = ev["kind"] == 5 and any(
-                        t[0] == "a" and len(t) > 1 and isinstance(t[1], str) and t[1].split(":")[:2] == [str(r["kind"]), r["pubkey"]]
-                        for t in ev["tags"] if t)
-                    if ok and by_coord and r["pubkey"] == ev["pubkey"]:
-                        continue  # deleting one's own replaceable event by coordinate is allowed by NIP-09
-                    if not (ok and ev["kind"] == 5 and r["id"] in loose and r["pubkey"] == ev["pubkey"]):
-                        why = ("not-a-deletion" if ev["kind"] != 5 else "refused" if not ok else
-                               "foreign-author" if r["pubkey"] != ev["pubkey"] else "unreferenced")
+                    allowed = False
+                    why = "not-a-deletion"
+                    for ev, ok, strict, loose, malformed, dup in info:
+                        if R.address(r) is not None and R.address(r) == R.address(ev) and r["created_at"] <= ev["created_at"]:
+                            allowed = True  # replaced by a newer version of its own address (C09's subject)
+                        by_coord = ev["kind"] == 5 and any(
+                            t[0] == "a" and len(t) > 1 and isinstance(t[1], str) and t[1].split(":")[:2] == [str(r["kind"]), r["pubkey"]]
+                            for t in ev["tags"] if t)
+                        if ok and by_coord and r["pubkey"] == ev["pubkey"]:
+                            allowed = True  # deleting one's own replaceable event by coordinate is allowed by NIP-09
+                        if ok and ev["kind"] == 5 and r["id"] in loose and r["pubkey"] == ev["pubkey"]:
+                            allowed = True
+                        if ev["kind"] == 5:
+                            why = ("refused" if not ok else "foreign-author" if (r["id"] in loose and r["pubkey"] != ev["pubkey"])
+                                   else why if why == "foreign-author" else "unreferenced")
+                    if not allowed:
                         viol.append(V("%s-wrongly-deleted:%s" % (backend, why),
                                       "a deletion removes only referenced events of its own author",
-                                      step=step, event=ev, removed=r))
-                if ok and ev["kind"] == 5:
-                    own_older = [e for i, e in before.items() if i in strict and e["pubkey"] == ev["pubkey"]
-                                 and e["created_at"] < ev["created_at"]]
-                    foreign = [e for i, e in before.items() if i in strict and e["pubkey"] != ev["pubkey"]]
-                    if own_older and foreign:
-                        nt = True
-                    for e in own_older:
-                        if e["id"] in after:
-                            viol.append(V("%s-own-older-not-deleted:%s" % (backend, "malformed-e-present" if malformed else "wellformed"),
-                                          "an accepted deletion removes the referenced older events of its author",
-                                          step=step, event=ev, kept=e))
+                                      step=step, events=group, removed=r))
+                for ev, ok, strict, loose, malformed, dup in info:
+                    if ok and ev["kind"] == 5:
+                        own_older = [e for i, e in before.items() if i in strict and e["pubkey"] == ev["pubkey"]
+                                     and e["created_at"] < ev["created_at"]]
+                        foreign = [e for i, e in before.items() if i in strict and e["pubkey"] != ev["pubkey"]]
+                        if own_older and foreign:
+                            nt = True
+                        for e in own_older:
+                            if e["id"] in after:
+                                viol.append(V("%s-own-older-not-deleted:%s" % (backend, ("malformed-e-present" if malformed else "wellformed")
+                                                                                + (":concurrent" if len(group) > 1 else "")),
+                                              "an accepted deletion removes the referenced older events of its author",
+                                              step=step, event=ev, kept=e, together=len(group)))
+                        deletions.append(ev)
+                    # an accepted regular event stays out of the store only if its OWN author's deletion named it before
+                    if (ok and not dup and ev["kind"] != 5 and R.address(ev) is None and not R.is_ephemeral(ev["kind"])
+                            and ev["id"] not in after):
+                        named_by = [d for d in deletions if ev["id"] in referenced(d)[1]]
+                        if not any(d["pubkey"] == ev["pubkey"] for d in named_by):
+                            viol.append(V("%s-accepted-event-suppressed:%s" % (backend, "foreign-deletion" if named_by else "no-deletion"),
+                                          "only the author's deletion can keep an event out of the store",
+                                          step=step, event=ev, named_by=[d["id"] for d in named_by]))
+                        labels.append("arrived-after-its-deletion")
+                    elif ok and ev["kind"] != 5 and any(ev["id"] in referenced(d)[1] for d in deletions):
+                        labels.append("arrived-after-a-deletion-naming-it")
                 for r in removed:
                     got = await rig.query([{"ids": [r["id"]]}, {"authors": [r["pubkey"]]}])
                     if any(g["id"] == r["id"] for g in got):
